@@ -382,7 +382,7 @@ KNOWN_PRED = {}
 # ----------------------------------------------------------------------------- which tests a rule's input entry is compiled to
 
 
-def evaluation_job(check, mirror, rb, crate, jobs, U):
+def evaluation_job(check, mirror, rb, crate, jobs, U, nr_max=3):
     """build_decision_table_evaluator is executed with parse_decision_table replaced by a symbolic parsed table (0..3 rules, 0..2 input
     entry evaluators and one output entry evaluator per rule, all oracles returning arbitrary values); the closure it returns is then run.
     The eleven evaluate_hit_policy_* functions are loggers.  Obligations: the table handed to the hit policy has one evaluated rule per rule,
@@ -399,7 +399,7 @@ def evaluation_job(check, mirror, rb, crate, jobs, U):
     f_erule = rsenum.struct_fields(src, "EvaluatedRule")
     HP = rsenum.enums_of(src_m)["HitPolicy"]
     AG = rsenum.enums_of(src_m)["BuiltinAggregator"]
-    NR, NI = 3, 2
+    NR, NI = nr_max, 2
     WANT = {"Unique": "unique", "Any": "any", "Priority": "priority", "First": "first", "RuleOrder": "rule_order", "OutputOrder": "output_order"}
     check.bounds.append("evaluation: 0..%d rules with 0..%d input entries and one output entry each, every hit policy and aggregator; entry values arbitrary (true / false / null)" % (NR, NI))
     check.assumptions.append("evaluation: parse_decision_table replaced by a symbolic parsed table, entry evaluators are oracles, evaluate_hit_policy_* are loggers")
@@ -439,8 +439,23 @@ def evaluation_job(check, mirror, rb, crate, jobs, U):
         for r in range(NR):
             rv = {"input_entries_evaluators": VecV(ni.e, [entry(r, i) for i in range(NI)], "Evaluator"), "output_entries_evaluators": VecV(z3.IntVal(1), [outev(r)], "Evaluator")}
             rules.append(Adt("struct", "ParsedRule", [rv[f] for f in f_prule]))
-        pvals = {"component_names": VecV(z3.IntVal(0), (), "Name"), "output_values_evaluators": VecV(z3.IntVal(0), (), "T"),
-                 "default_output_values_evaluators": VecV(z3.IntVal(0), (), "T"), "rules": VecV(nr.e, rules, "ParsedRule")}
+        # the output clause may declare allowed values and a default entry (0..1 each): FEEL texts evaluated by every evaluation
+        nov = ex.fresh_int(st, "usize", "n_output_values_clauses", constrain=False)
+        ndv = ex.fresh_int(st, "usize", "n_default_clauses", constrain=False)
+        # both present or both absent: halves the number of paths; the two loops of the code under test are independent of each other
+        ex.assume(st, z3.And(nov.e >= 0, nov.e <= 1, ndv.e == nov.e))
+        inputs["n_output_values_clauses"], inputs["n_default_clauses"] = nov.e, ndv.e
+        ELIST = U.idx("ExpressionList")
+
+        def clause_ev(tag, k):
+            val = En("Value", z3.IntVal(ELIST), {"ExpressionList": (Adt("struct", "Values", (VecV(z3.IntVal(1), [En("Value", z3.IntVal(NUMB), {"Number": (Opaque("FeelNumber", z3.IntVal(k)),)})], "Value"),)),)})
+
+            def cb(ex, st, argv):
+                st.log.append((tag,))
+                yield st, val
+            return some(Ref(ex.new_cell(st, FnV("@model", (cb,)), "box")))
+        pvals = {"component_names": VecV(z3.IntVal(0), (), "Name"), "output_values_evaluators": VecV(nov.e, [clause_ev("output_values", 8888)], "T"),
+                 "default_output_values_evaluators": VecV(ndv.e, [clause_ev("default_value", 7777)], "T"), "rules": VecV(nr.e, rules, "ParsedRule")}
         missing = [f for f in f_pdt if f not in pvals]
         import interior
         ftypes = interior.struct_field_types(src, "ParsedDecisionTable")
@@ -518,8 +533,14 @@ def evaluation_job(check, mirror, rb, crate, jobs, U):
         # obligation declares none) - not values left inside the compiled table by an earlier evaluation with other inputs
         stale = [e for e in o.st.log if e[0] == "stale_state"]
         ov, dov = edt.fields[f_edt.index("output_values")], edt.fields[f_edt.index("default_output_values")]
-        props.append(("the allowed and default output values handed to the hit policy are the ones this evaluation computed, nothing an earlier evaluation left in the compiled table",
-                      z3.And(ov.len == 0, dov.len == 0, z3.BoolVal(not stale))))
+        def only(vec, k):
+            n_ = ex.concrete(vec.len)
+            return n_ is not None and all(isinstance(x, En) and "Number" in x.alts and ex.concrete(x.alts["Number"][0].e) == k for x in vec.items[:n_])
+        nomatch = z3.And([z3.Not(er.items[r].fields[f_erule.index("matches")].e) for r in range(n or 0)] + [z3.BoolVal(True)])
+        props.append(("the allowed output values handed to the hit policy are the ones this evaluation computed, and so are the default values whenever no rule matches (also when there is no rule at all); "
+                      "nothing an earlier evaluation left in the compiled table",
+                      z3.And(ov.len == v["n_output_values_clauses"], z3.BoolVal(bool(only(ov, 8888))), z3.BoolVal(not stale),
+                             z3.Implies(nomatch, z3.And(dov.len == v["n_default_clauses"], z3.BoolVal(bool(only(dov, 7777))))))))
         return props
 
     def desc(m, v):
@@ -535,7 +556,11 @@ def evaluation_job(check, mirror, rb, crate, jobs, U):
         _, seq, _ = replay_call(rb, ["model_eval_seq", xml, "d", "{a: 1}", "d", "{a: 5}", "d", "{a: 1}"])
         alone = [replay_call(rb, ["model_eval", xml, "d", c])[1].replace("VALUE ", "") for c in ("{a: 1}", "{a: 5}", "{a: 1}")]
         got = seq.replace("VALUES ", "").split(" | ")
-        return got != alone, "one compiled table with default output `a * 2`, evaluated with a = 1, 5, 1: %s; each on an evaluator of its own: %s" % (got, alone)
+        # a table without rules: nothing matches, the default output is the result
+        xml0 = xml.replace('<rule><inputEntry><text>&lt; 0</text></inputEntry><outputEntry><text>0</text></outputEntry></rule>', "")
+        _, out0, _ = replay_call(rb, ["model_eval", xml0, "d", "{a: 4}"])
+        return got != alone or out0.strip() != "VALUE 8", ("one compiled table with default output `a * 2`, evaluated with a = 1, 5, 1: %s; each on an evaluator of its own: %s; "
+                                                              "the same table without rules, a = 4 -> %s (specified 8)") % (got, alone, out0[:40])
 
     def replay(i, rb, label=""):
         """a table with one input a and the witness's rules (entry true -> `-`, false -> `< 0`, null -> `null`... rendered as tests on a = 1);
